@@ -316,7 +316,7 @@ def step (w : World) (ws : List String) : World × List String :=
         let out := setcommentF o cm w.fault
         (setCtx { w with fault := none } ci (some { x with cfg := x.cfg.setOpt r out.opt }), [if out.ok then "R 0" else "R -1"])
       | _, _, _, _ => emitApi w ci x (apiSetcomment x.cfg (bytesOfHex p) (optOfHex v))
-  | ["AT", c, p, t] => withCtx c fun ci x => emitApi w ci x (apiAddtsec orc w.k x.cfg (bytesOfHex p) (bytesOfHex t))
+  | ["AT", c, p, t] => withCtx c fun ci x => emitApi w ci x (apiAddtsec orc w.k x.cfg (bytesOfHex p) (if t == "-" then none else some (bytesOfHex t)))
   | ["RN", c, p, i] => withCtx c fun ci x => emitApi w ci x (apiRmnsec x.cfg (bytesOfHex p) i.toNat!)
   | ["RT", c, p, t] => withCtx c fun ci x => emitApi w ci x (apiRmtsec x.cfg (bytesOfHex p) (bytesOfHex t))
   | ["RS", c, p] => withCtx c fun ci x => emitApi w ci x (apiRmsec x.cfg (bytesOfHex p))
@@ -332,6 +332,19 @@ def step (w : World) (ws : List String) : World × List String :=
       let f : OptInfo → OptInfo := fun i => if kind == "w" then { i with valid2Cb := true } else { i with validCb := true }
       let (cfg', ok) := apiRegister x.cfg (bytesOfHex p) f
       (setCtx w ci (some { x with cfg := cfg' }), [if ok then "R 0" else "R -1"])
+  | ["VFS", c, sp, p, kind] => withCtx c fun ci x =>
+      -- register a validation callback by calling the registration function ON a section instance (found at `sp`)
+      let f : OptInfo → OptInfo := fun i => if kind == "w" then { i with valid2Cb := true } else { i with validCb := true }
+      let (pos, _) := apiGetsec x.cfg (bytesOfHex sp)
+      (match pos with
+       | some steps =>
+         (match steps.getLast?, cfgAt x.cfg steps with
+          | some (oi, ii), some s =>
+            let (s', ok) := apiRegister s (bytesOfHex p) f
+            let cfg' := updOptAt (fun o => o.setVals (listSet o.vals ii (.sec s'))) x.cfg steps.dropLast oi
+            (setCtx w ci (some { x with cfg := cfg' }), [if ok then "R 0" else "R -1"])
+          | _, _ => (w, ["R -1"]))
+       | none => (w, ["R -1"]))
   | ["PFN", c, p, on] => withCtx c fun ci x =>
       let (cfg', ok) := apiRegister x.cfg (bytesOfHex p) (fun i => { i with printCb := on == "1" })
       (setCtx w ci (some { x with cfg := cfg' }), [if ok then "R 0" else "R -1"])
